@@ -320,6 +320,23 @@ def check(rep, F, tier, replay=None):
     rep.floor("registration functions ordering empty and witnessed registration", 3, n_wl)
     from ruleutil import signer_amount_rule
     signer_amount_rule(rep, F)
+    # SIGNERS-explicit: an explicitly given signer set is stored as given
+    rep.rule("SIGNERS-explicit", "the set_required_signers setters of the script sources (NativeScriptSourceEnum, PlutusScriptSource) store Some(clone of the argument) - an Option::Some aggregate whose payload is the cloned parameter - and call no conversion that can turn the set into None (to_option, filter, then ...): for an inline native script None means `every key hash inside the script signs`, so collapsing an explicitly empty set to None makes count_needed_vkeys count the script's keys (one surplus 101-byte fake witness per key for a script that is satisfiable without signatures)")
+    n_se = 0
+    for fid__, fn__ in F.fns.items():
+        if fn__["name"] != "set_required_signers" or "script_structs" not in fn__["file"] or F.is_derived(fid__):
+            continue
+        calls__ = [c.to or "" for c in F.calls(fid__)]
+        if any(t.endswith("::set_required_signers") for t in calls__):
+            continue  # a forwarding wrapper
+        n_se += 1
+        rep.inst("SIGNERS-explicit")
+        somes__ = [st for bb in fn__["bbs"] if not bb["c"] for st in bb["st"] if st[1] == "=" and st[3][0] == "agg" and str(st[3][2]).endswith("option::Option") and st[3][3] == "Some"]
+        conv__ = [t for t in calls__ if re.search(r"(::to_option|Option::<T>::(filter|take_if|xor|and_then|then|then_some)|bool::then|bool::then_some)$", t)]
+        clones__ = [t for t in calls__ if t.endswith("Ed25519KeyHashes as std::clone::Clone>::clone")]
+        if conv__ or not somes__ or len(somes__) != len(clones__):
+            rep.violation("SIGNERS-explicit", F.key(fid__), "%s does not store its argument as Some(clone) on every arm (Some aggregates: %d, clones: %d, converting calls: %s): an explicitly empty signer set becomes None, which for an inline native script means `all key hashes of the script` - the size / fee estimate then counts signers the caller excluded" % (F.key(fid__), len(somes__), len(clones__), [H.short(x) for x in conv__]), {})
+    rep.floor("script-source signer setters", 2, n_se)
     return rep.finish(
         EXPLANATION,
         ["tables/c18_cert_signers.json transcribes the ledger's required-key rules", "fake witnesses have real sizes (fakes.rs)", "Ed25519KeyHashes de-duplicates (C16)"],
